@@ -515,6 +515,135 @@ pub fn long_names() -> Vec<Input> {
 }
 
 // ---------------------------------------------------------------------------------------
+// random long strings (tape driven): lengths up to and beyond 65,535 bytes, special characters
+// sprinkled at random positions, optional '$share' / '$SYS' prefixes
+
+fn random_long(t: &mut crate::tape::Tape, alpha: &[char], prefixes: &[&str]) -> String {
+    let len = match t.pick(8) {
+        0 => 65_535,
+        1 => 65_536,
+        2 => 65_534,
+        3 => 65_530 + t.pick(12),
+        4 => 60_000 + t.pick(10_000),
+        5 => 300 + t.pick(3_000),
+        _ => 20 + t.pick(200),
+    };
+    let mut s = String::with_capacity(len + 8);
+    s.push_str(prefixes[t.pick(prefixes.len())]);
+    // a few segments of filler separated by tape-chosen characters
+    let k = 1 + t.pick(10);
+    let mut cuts: Vec<usize> = (0..k).map(|_| t.pick(len.max(1))).collect();
+    cuts.sort_unstable();
+    let mut ci = 0;
+    while s.len() < len {
+        if ci < cuts.len() && s.len() >= cuts[ci] {
+            let c = alpha[t.pick(alpha.len())];
+            if s.len() + c.len_utf8() <= len {
+                s.push(c);
+            }
+            ci += 1;
+        } else {
+            let next = if ci < cuts.len() { cuts[ci].min(len) } else { len };
+            let n = next.saturating_sub(s.len()).max(1).min(len - s.len());
+            for _ in 0..n {
+                s.push('z');
+            }
+        }
+    }
+    s
+}
+
+fn c16_random(input: &Input, ctx: &mut Ctx) -> CaseResult {
+    let mut t = crate::tape::Tape::new(input.tape());
+    let s = random_long(&mut t, FILTER_ALPHA, &["", "", "$share/g/", "$share/", "$share/\u{e9}/", "/", "+/", "$SYS/"]);
+    let v = match check_filter(&s, true, t.chance(1, 4)) {
+        Ok(v) => v,
+        Err(m) => {
+            ctx.refine = Some(("c16.single", Input::Text(s.into_bytes())));
+            return Err(Violation::new(m));
+        }
+    };
+    ctx.label(if v { "valid" } else { "invalid" });
+    ctx.label(match s.len() {
+        0..=65_533 => "len<65534",
+        65_534 => "len=65534",
+        65_535 => "len=65535",
+        _ => "len>65535",
+    });
+    if ctx.nontrivial(model::fnv(s.as_bytes())) {
+        ctx.sample(|| format!("{} bytes {:?}.. -> {}", s.len(), s.chars().take(20).collect::<String>(), if v { "valid" } else { "invalid" }));
+    }
+    Ok(())
+}
+
+fn c18_random(input: &Input, ctx: &mut Ctx) -> CaseResult {
+    let mut t = crate::tape::Tape::new(input.tape());
+    let s = random_long(&mut t, NAME_ALPHA, &["", "", "", "$share/", "$SYS/", "/"]);
+    let v = match check_name(&s, true, t.chance(1, 4)) {
+        Ok(v) => v,
+        Err(m) => {
+            ctx.refine = Some(("c18.single", Input::Text(s.into_bytes())));
+            return Err(Violation::new(m));
+        }
+    };
+    ctx.label(if v { "valid" } else { "invalid" });
+    ctx.label(match s.len() {
+        0..=65_533 => "len<65534",
+        65_534 => "len=65534",
+        65_535 => "len=65535",
+        _ => "len>65535",
+    });
+    if ctx.nontrivial(model::fnv(s.as_bytes())) {
+        ctx.sample(|| format!("{} bytes {:?}.. -> {}", s.len(), s.chars().take(20).collect::<String>(), if v { "valid" } else { "invalid" }));
+    }
+    Ok(())
+}
+
+/// random valid filters from the packet generator's filter grammar (multi-byte share names,
+/// filters beginning with '/', long levels), compared in triples
+fn c17_random(input: &Input, ctx: &mut Ctx) -> CaseResult {
+    let mut t = crate::tape::Tape::new(input.tape());
+    let cfg = if t.chance(1, 6) { crate::gen::GenCfg::FULL } else { crate::gen::GenCfg::SMALL };
+    let mut v: Vec<String> = Vec::new();
+    for _ in 0..3 {
+        let s = crate::gen::gen_filter_string(&mut t, &cfg);
+        if !specpred::filter_valid(&s) {
+            return Err(Violation::new(format!("MQV-INTERNAL: generator produced an invalid filter {:?}", s)));
+        }
+        v.push(s);
+    }
+    if t.chance(1, 4) {
+        v[2] = v[0].clone(); // equal texts from separate allocations
+    }
+    for s in &v {
+        match check_shared_parts(s) {
+            Ok(true) => ctx.label("shared-filters"),
+            Ok(false) => ctx.label("plain-filters"),
+            Err(m) => {
+                ctx.refine = Some(("c17.single", Input::Text(s.clone().into_bytes())));
+                return Err(Violation::new(m));
+            }
+        }
+        if s.starts_with("$share/") && specpred::shared_split(s).map(|x| !x.0.is_ascii()).unwrap_or(false) {
+            ctx.label("multi-byte-share-name");
+        }
+        if specpred::shared_split(s).map(|x| x.1.starts_with('/')).unwrap_or(false) {
+            ctx.label("shared-filter-begins-with-slash");
+        }
+    }
+    if let Err(m) = check_relations(&v[0], &v[1], &v[2]).and_then(|_| check_relations(&v[2], &v[0], &v[1])) {
+        ctx.refine = Some(("c17.triple", Input::Text(format!("{}\u{1}{}\u{1}{}", v[0], v[1], v[2]).into_bytes())));
+        return Err(Violation::new(m));
+    }
+    if ctx.nontrivial(model::fnv(v.join("|").as_bytes())) {
+        ctx.sample(|| format!("{:?}", v.iter().map(|s| s.chars().take(40).collect::<String>()).collect::<Vec<_>>()));
+    }
+    Ok(())
+}
+
+pub const C16_RANDOM: Sub = Sub { name: "c16.random-long", f: c16_random };
+pub const C17_RANDOM: Sub = Sub { name: "c17.random", f: c17_random };
+pub const C18_RANDOM: Sub = Sub { name: "c18.random-long", f: c18_random };
 
 pub const C16_BLOCK: Sub = Sub { name: "c16.block", f: c16_block };
 pub const C16_SINGLE: Sub = Sub { name: "c16.single", f: c16_single };
@@ -525,7 +654,7 @@ pub const C18_BLOCK: Sub = Sub { name: "c18.block", f: c18_block };
 pub const C18_SINGLE: Sub = Sub { name: "c18.single", f: c18_single };
 
 pub fn subs() -> Vec<Sub> {
-    vec![C16_BLOCK, C16_SINGLE, C17_BLOCK, C17_SINGLE, C17_TRIPLE, C18_BLOCK, C18_SINGLE]
+    vec![C16_BLOCK, C16_SINGLE, C16_RANDOM, C17_BLOCK, C17_SINGLE, C17_TRIPLE, C17_RANDOM, C18_BLOCK, C18_SINGLE, C18_RANDOM]
 }
 
 const BLOCK: u64 = 4_096;
@@ -560,7 +689,11 @@ pub fn run_c16(env: &mut Env) -> RunResult {
         .map(|s| Input::Text(s.as_bytes().to_vec()))
         .collect();
     env.run_inputs(C16_SINGLE, &reg)?;
+    env.run_tapes(C16_RANDOM, env.tier.sel(150, 3_000), 40)?;
     env.note(format!("bounded-exhaustive: all strings over {:?} of length <= {} alone and of length <= {} behind each of the prefixes {:?}", FILTER_ALPHA, ml, mlp, &FILTER_PREFIXES[1..]));
+    env.require("c16.random-long", "len=65535");
+    env.require("c16.random-long", "len>65535");
+    env.require("c16.random-long", "valid");
     env.require("c16.block", "valid-shared");
     env.require("c16.block", "invalid");
     env.require("c16.single", "len=65535");
@@ -580,6 +713,9 @@ pub fn run_c17(env: &mut Env) -> RunResult {
         .map(|s| Input::Text(s.as_bytes().to_vec()))
         .collect();
     env.run_inputs(C17_SINGLE, &reg)?;
+    env.run_tapes(C17_RANDOM, env.tier.sel(4_000, 60_000), 60)?;
+    env.require("c17.random", "multi-byte-share-name");
+    env.require("c17.random", "shared-filter-begins-with-slash");
     env.require("c17.block", "shared-filters");
     env.require("c17.block", "triples-compared");
     Ok(())
@@ -591,6 +727,10 @@ pub fn run_c18(env: &mut Env) -> RunResult {
     let n = b.len() as u64;
     env.run_enum(C18_BLOCK, n, true, move |i| b[i as usize].clone())?;
     env.run_inputs(C18_SINGLE, &long_names())?;
+    env.run_tapes(C18_RANDOM, env.tier.sel(150, 3_000), 40)?;
+    env.require("c18.random-long", "len=65535");
+    env.require("c18.random-long", "len>65535");
+    env.require("c18.random-long", "valid");
     env.note(format!("bounded-exhaustive: all strings over {:?} of length <= {} alone and of length <= {} behind each of the prefixes {:?}", NAME_ALPHA, ml, mlp, &NAME_PREFIXES[1..]));
     env.require("c18.block", "valid");
     env.require("c18.block", "invalid");
